@@ -147,6 +147,22 @@ def run(tier):
             rec_unwrap(rec, ver_enc, ver_spec, rec_wrap(rec, plain_enc, plain_spec, bytes(pz)))   # one bit off
             pz[pos:pos + 10] = ck
             rec_unwrap(rec, ver_enc, ver_spec, rec_wrap(rec, plain_enc, plain_spec, bytes(pz)))   # exactly the key: accepted and blanked
+        # one encryptor object whose public attributes are RE-ASSIGNED between calls (position, customer key): every call works with
+        # the attributes as they are at that moment
+        for pos1, pos2, n in ((3, 9, 40), (0, 16, 26), (10, 0, 30)):
+            key = L.gen_key(r)
+            ck1, ck2 = rand(10), rand(10)
+            e1, s1 = B2.dec_cust(key, ck1, pos1)
+            rec_unwrap(rec, e1, s1, rec_wrap(rec, e1, s1, rand(n)))
+            e1.customer_key_pos = pos2
+            s2 = dict(s1, pos=pos2)
+            rec_unwrap(rec, e1, s2, rec_wrap(rec, e1, s2, rand(n)))
+            e1.customer_key = ck2
+            s3 = dict(s2, ck=B(ck2))
+            cfr = rec_wrap(rec, e1, s3, rand(n))
+            rec_unwrap(rec, e1, s3, cfr)
+            e1.customer_key_pos = pos1
+            rec_unwrap(rec, e1, dict(s3, pos=pos1), cfr)                 # (now the slot is elsewhere: refused unless it happens to match)
         # payloads RELATED to the customer key: a copy of its ten bytes in front of the slot, overlapping the slot, behind it; a
         # periodic key with equal bytes around the slot - unwrapping blanks the slot and nothing else
         for pos, n in ((12, 40), (10, 30), (3, 26), (20, 60)):
